@@ -156,6 +156,11 @@ def read_file(fs=None):
         return None
 
 
+def write_file(content: bytes):
+    with open(ITER, 'wb') as f:
+        f.write(content)
+
+
 def parse_strict(content: bytes, names):
     """Independent strict reader: exactly one complete 'name = value' line per free
     parameter (sorted names as the library reports them).  Returns dict or an error string."""
@@ -564,7 +569,7 @@ class _Stop(Exception):
     pass
 
 
-def _first_eval_of_estimate(b):
+def _first_eval_of_estimate(b, entry='estimate'):
     """Runs estimate() up to the moment the library hands its starting values to the optimiser
     (public method BIOGEME.optimize); returns them.  (Optimisers may project the start onto their
     own box, e.g. +-sqrt(max float) - that is outside the library and outside this property.)"""
@@ -578,10 +583,20 @@ def _first_eval_of_estimate(b):
 
     b.optimize = wrapped
     try:
-        b.estimate()
+        if entry == 'estimate':
+            b.estimate()
+        elif entry == 'estimate(recycle=True)':      # no results file of the model exists: a real estimation is made
+            b.estimate(recycle=True)
+        elif entry == 'recycled_estimation':
+            b.recycled_estimation()
+        else:
+            raise KeyError(entry)
     except _Stop:
         pass
     return seen
+
+
+RESTART_ENTRIES = ('estimate', 'estimate(recycle=True)', 'recycled_estimation')
 
 
 def _part_c(task, rec):
@@ -630,19 +645,25 @@ def _part_c(task, rec):
             rec.violation(f'C15|{bad[0]}|restart:{nkey}', f'{bad[0]} names={names} values={x}: {bad[1]}', case,
                           observed=bad[1])
             continue
-        # restart
-        b2 = make_biogeme(names=names, extreme=True)
-        try:
-            seen = _first_eval_of_estimate(b2)
-        except Exception as e:
-            rec.violation(f'C15|restart-raises-{type(e).__name__}|restart:{nkey}',
-                          f'estimate() of the same model raised {type(e).__name__}: {e} when restarting from a complete '
-                          f'file {content!r}', case, observed=repr(e))
-            continue
-        if [bits(v) for v in seen.get('x', [])] != [bits(v) for v in x]:
-            rec.violation(f'C15|restart-not-from-saved-values|restart:{nkey}',
-                          f'restart began at {seen.get("x")} instead of the saved {x} (names {names})', case,
-                          expected=x, observed=seen.get('x'))
+        # restart, through every entry point that launches an estimation of the model
+        for entry in RESTART_ENTRIES:
+            if entry != 'estimate':
+                # the other entry points: same file, put back as it was (an estimation may rewrite it)
+                write_file(content)
+            b2 = make_biogeme(names=names, extreme=True)
+            ekey = nkey if entry == 'estimate' else f'{nkey}:entry={entry}'
+            try:
+                seen = _first_eval_of_estimate(b2, entry)
+            except Exception as e:
+                rec.violation(f'C15|restart-raises-{type(e).__name__}|restart:{ekey}',
+                              f'{entry} of the same model raised {type(e).__name__}: {e} when restarting from a complete '
+                              f'file {content!r}', dict(case, entry=entry), observed=repr(e))
+                continue
+            rec.case(('c-restart', names, tuple(x), entry), (names, x, entry, seen.get('x')), outcome=('restart', entry))
+            if [bits(v) for v in seen.get('x', [])] != [bits(v) for v in x]:
+                rec.violation(f'C15|restart-not-from-saved-values|restart:{ekey}',
+                              f'{entry}: restart began at {seen.get("x")} instead of the saved {x} (names {names})', dict(case, entry=entry),
+                              expected=x, observed=seen.get('x'))
 
 
 def _part_d(task, rec):
